@@ -2,6 +2,7 @@ import Driver.Proto
 import AdaVerif.Model.AggLayout
 import AdaVerif.Model.UrlRec
 import AdaVerif.Model.Encode
+import AdaVerif.Model.AggSetters
 /- agg.edit <state> <editor> <hexarg> : apply one Model editor to a buffer-with-offsets state.
    state = buf,pe,ue,hs,he,port,ps,ss,hh,opq   (hex buffer, decimal offsets, '-' = omitted) -/
 namespace Driver
@@ -9,8 +10,14 @@ open AdaVerif AdaVerif.Model.Agg
 
 def optNat (s : String) : Option Nat := if s == "-" then none else s.toNat?
 
-def parseAgg (s : String) : Option Agg :=
+/-- the scheme type the object carries (`is_special()`, `type == FILE`), when the harness reports it -/
+def parseFlags (s : String) : Option (Bool × Bool) :=
   match s.splitOn "," with
+  | [_, _, _, _, _, _, _, _, _, _, sp, fl] => some (sp == "1", fl == "1")
+  | _ => none
+
+def parseAgg (s : String) : Option Agg :=
+  match (s.splitOn ",").take 10 with
   | [b, pe, ue, hs, he, port, ps, ss, hh, opq] =>
     match pe.toNat?, ue.toNat?, hs.toNat?, he.toNat?, ps.toNat? with
     | some pe, some ue, some hs, some he, some ps =>
@@ -29,7 +36,9 @@ def wfOf (l : L) : Bool :=
   (!l.dashdot || (!l.auth && !l.opq && l.port.isNone)) &&
   ((l.host ++ (portS l.port ++ (ddS l.dashdot ++ (l.path ++ (queryS l.query ++ fragS l.frag))))).headD 0 != 0x40)
 
-def applyEditor (a : Agg) (ed : String) (x : Bytes) : Option Agg :=
+def applyEditor (a : Agg) (ed : String) (x : Bytes) (flags : Option (Bool × Bool) := none) : Option Agg :=
+  let special := match flags with | some (sp, _) => sp | none => Spec.isSpecialScheme (getProtocol a).dropLast
+  let isFile := match flags with | some (_, fl) => fl | none => getProtocol a == [0x66, 0x69, 0x6C, 0x65, 0x3A]
   match ed with
   | "update_base_search" => some (updateBaseSearchView a x)
   | "clear_search" => some (clearSearch a)
@@ -47,6 +56,10 @@ def applyEditor (a : Agg) (ed : String) (x : Bytes) : Option Agg :=
   | "clear_hostname" => some (clearHostname a)
   | "clear_password" => some (clearPassword a)
   | "add_authority_slashes_if_needed" => some (addAuthoritySlashes a)
+  | "set_username" => some (setUsernameM 4000000000 isFile a x).1
+  | "set_password" => some (setPasswordM 4000000000 isFile a x).1
+  | "set_search" => if x.isEmpty then none else some (setSearchM 4000000000 special a x)
+  | "set_hash" => if x.isEmpty then none else some (setHashM 4000000000 a x)
   | "set_scheme" => some (setScheme a x)
   | "set_scheme_from_view_with_colon" => some (setSchemeWithColon a x)
   | "append_base_pathname" => some (appendBasePathname a x)
@@ -58,7 +71,7 @@ def cmdAggEdit (state ed arg : String) : String :=
   match parseAgg state with
   | none => "bad-state"
   | some a =>
-    match applyEditor a ed (unhexs arg) with
+    match applyEditor a ed (unhexs arg) (parseFlags state) with
     | none => "bad-op"
     | some a' => s!"{dumpAgg a'} shape={if shapeB a' then 1 else 0} wf={if wfOf (abs a') then 1 else 0}"
 
